@@ -5,6 +5,24 @@ import (
 	"github.com/bmeg/grip/util/protoutil"
 )
 
+// mergeLabels combines the label lists of consecutive hasLabel statements: an
+// element passes all of them only if its label is in every list.
+func mergeLabels(cur []string, next []string, first bool) []string {
+	if first {
+		return next
+	}
+	out := []string{}
+	for _, l := range cur {
+		for _, n := range next {
+			if l == n {
+				out = append(out, l)
+				break
+			}
+		}
+	}
+	return out
+}
+
 func FindVertexHasLabelStart(pipe []*gripql.GraphStatement) ([]string, []*gripql.GraphStatement) {
 	hasLabelLen := 0
 	labels := []string{}
@@ -14,8 +32,11 @@ func FindVertexHasLabelStart(pipe []*gripql.GraphStatement) ([]string, []*gripql
 			break
 		}
 		if i == 0 {
-			if _, ok := step.GetStatement().(*gripql.GraphStatement_V); ok {
-				//lookupV = lv
+			if v, ok := step.GetStatement().(*gripql.GraphStatement_V); ok {
+				//a lookup by id is not a label scan: V(ids).hasLabel() keeps only the listed vertices
+				if len(v.V.GetValues()) > 0 {
+					break
+				}
 			} else {
 				break
 			}
@@ -23,7 +44,7 @@ func FindVertexHasLabelStart(pipe []*gripql.GraphStatement) ([]string, []*gripql
 		}
 		switch s := step.GetStatement().(type) {
 		case *gripql.GraphStatement_HasLabel:
-			labels = protoutil.AsStringList(s.HasLabel)
+			labels = mergeLabels(labels, protoutil.AsStringList(s.HasLabel), i == 1)
 			hasLabelLen = i + 1
 		default:
 			isDone = true
@@ -41,7 +62,10 @@ func FindEdgeHasLabelStart(pipe []*gripql.GraphStatement) ([]string, []*gripql.G
 			break
 		}
 		if i == 0 {
-			if _, ok := step.GetStatement().(*gripql.GraphStatement_E); ok {
+			if e, ok := step.GetStatement().(*gripql.GraphStatement_E); ok {
+				if len(e.E.GetValues()) > 0 {
+					break
+				}
 			} else {
 				break
 			}
@@ -49,7 +73,7 @@ func FindEdgeHasLabelStart(pipe []*gripql.GraphStatement) ([]string, []*gripql.G
 		}
 		switch s := step.GetStatement().(type) {
 		case *gripql.GraphStatement_HasLabel:
-			labels = protoutil.AsStringList(s.HasLabel)
+			labels = mergeLabels(labels, protoutil.AsStringList(s.HasLabel), i == 1)
 			hasLabelLen = i + 1
 		default:
 			isDone = true
